@@ -22,6 +22,27 @@ theorem agree_setUpper {s : St} (hc : Consistent s) (q : Path) (X : Node) (hu : 
   rw [nodeAt_setUpper_ne _ q X hu _ _ (fun h => h1 h.2), nodeAt_setUpper_ne _ q X hu _ _ (fun h => h2 h.2)]
   exact ⟨sameShape_refl _, sameShape_refl _⟩
 
+/-- the same when the whole upper layer is replaced by one that differs only inside the subtree
+    at `q` -/
+theorem agree_outside {s : St} (hc : Consistent s) {L L' : Layer} (hup : s.disk.upper = some L) (q : Path)
+    (hout : ∀ p, q.isSuffixOf p = false → L' p = L p)
+    {p : Path} {m : MNode} (hm : s.mem p = some m) (n' : Name)
+    (h1 : q.isSuffixOf p = false) (h2 : q.isSuffixOf (n' :: p) = false) :
+    AgreeFor s.disk (s.disk.setLayer 0 L') m.reals n' := by
+  intro r hr
+  have hp := (reals_shape hc hm r hr).1
+  rw [hp]
+  have key : ∀ p0, q.isSuffixOf p0 = false → (s.disk.setLayer 0 L').nodeAt r.layer p0 = s.disk.nodeAt r.layer p0 := by
+    intro p0 h0
+    rw [nodeAt_setLayer0]
+    split
+    · rename_i hi
+      rw [hi, hout p0 h0]
+      simp [Disk.nodeAt, Disk.layer, hup]
+    · rfl
+  rw [key p h1, key (n' :: p) h2]
+  exact ⟨sameShape_refl _, sameShape_refl _⟩
+
 /-- (α) generic re-establishment of the invariant -/
 theorem consistent_setNode {s : St} (hc : Consistent s) {L : Layer} (hup : s.disk.upper = some L)
     (n : Name) (pp : Path) (X : Node) {pm m m' : MNode}
